@@ -85,7 +85,7 @@ def coq_makefile():
 def coq_build(targets, timeout=1500):
     """full .vo build of the given targets (never -vos). returns (ok, log)"""
     coq_makefile()
-    rc, out = sh(["timeout", str(timeout), "make", "-j16"] + targets, cwd=COQ, timeout=timeout + 60)
+    rc, out = sh(["timeout", str(timeout), "make", "-j16"] + (["-k"] if not targets else []) + targets, cwd=COQ, timeout=timeout + 60)
     return rc == 0, out
 
 
@@ -191,6 +191,7 @@ def coq_audit(prop):
 
 def coq_eval(text, name="cases", timeout=900):
     """evaluate a generated .v file; returns (rc, stdout)"""
+    ensure_models()
     d = os.path.join(BUILD, "cases")
     os.makedirs(d, exist_ok=True)
     path = os.path.join(d, name + ".v")
@@ -199,10 +200,27 @@ def coq_eval(text, name="cases", timeout=900):
     return rc, out
 
 
+_models_ready = False
+
+
+def ensure_models():
+    """the comparison functions (model/*Check.v) are not in any property's cone: build every model file before evaluating"""
+    global _models_ready
+    if _models_ready:
+        return
+    with Lock("coq"):
+        targets = [f[:-2] + ".vo" for f in coq_sources() if f.startswith("model/")]
+        ok, out = coq_build(targets)
+        if not ok:
+            raise RuntimeError("model files do not compile: " + out[-1500:])
+    _models_ready = True
+
+
 def coq_eval_sharded(header, items, render, name, shard=400):
     """items -> 'Eval vm_compute in (idx, <term>).' lines, evaluated by up to 16 coqc in parallel.
     returns ({idx: 'true'|'false'|raw}, errors)"""
     import concurrent.futures
+    ensure_models()
     shards = [items[i:i + shard] for i in range(0, len(items), shard)]
     results, errors = {}, []
 
